@@ -72,5 +72,15 @@ UnlinkTuples == { VTuple(<<SmallInt(tag), id, Filler(tag, 2), Filler(tag, 3)>>) 
 NonMessages == { VTuple(<<>>), VNil, SmallInt(1), VAtom(<<97>>), VList(<<SmallInt(1), VAtom(<<97>>)>>, VNil), VBin(<<1>>),
                  VTuple(<<VAtom(<<97>>), SmallInt(1)>>), VTuple(<<VInt(FALSE, <<0, 1>>), SmallInt(1)>>), VTuple(<<VInt(TRUE, <<1>>), SmallInt(1)>>),
                  VTuple(<<VFloat(<<63, 240, 0, 0, 0, 0, 0, 0>>)>>), VTuple(<<VTuple(<<SmallInt(1)>>)>>), VTuple(<<VInt(FALSE, <<0,0,0,0,1>>)>>) }
-Universe == AllTagTuples \cup UnlinkTuples \cup NonMessages
+\* heads outside 0..255 whose low byte is the tag of a known operation, with exactly that operation's arity: not control messages
+\* (head = tag + 256, tag - 256, tag + 2^16, tag + 2^32 as a big integer)
+Lookalike(o, how) ==
+  LET n == Len(o.fields)
+      head == CASE how = 1 -> VInt(FALSE, <<o.tag, 1>>)                                   \* tag + 256
+                [] how = 2 -> VInt(TRUE, <<256 - o.tag, 0>>)                              \* tag - 256 (negative)
+                [] how = 3 -> VInt(FALSE, <<o.tag, 0, 1>>)                                \* tag + 2^16
+                [] OTHER -> VInt(FALSE, <<o.tag, 0, 0, 0, 1>>)                            \* tag + 2^32
+  IN VTuple(<<head>> \o [i \in 1..n |-> Filler(o.tag, i)])
+Lookalikes == { Lookalike(o, how) : o \in Ops, how \in 1..4 }
+Universe == AllTagTuples \cup UnlinkTuples \cup NonMessages \cup Lookalikes
 =============================================================================
